@@ -31,6 +31,12 @@ CHECKS = {
         "quick": {"runs": 12000, "wall": 70},
         "thorough": {"runs": 400000, "wall": 1500},
     },
+    "C03": {
+        "level": "exploration",
+        "legs": [("fithist", "C03")],
+        "quick": {"runs": 3000, "wall": 80},
+        "thorough": {"runs": 100000, "wall": 1800},
+    },
 }
 
 
@@ -40,6 +46,21 @@ def leg_of(check, i):
 
 
 EVIDENCE_TEXT = {
+    "C03": {
+        "rule": "each run = one real fit (xy / indexed / histogram / unbinned stratified; iminuit and scipy; nonlinear and iterative dynamic errors) "
+                "executing a seeded history of public mutators (sources via fit or fit.data_container, disable/enable, constraints, set/fix/release/limit, "
+                "data replacement, parameter_errors setter, do_fit with optional simulated clock jump, gc, scripted name collisions) interleaved with reads of "
+                "every public read-only property found by introspection (read density 0.3-3 per mutator, repeated reads, reads right before each mutator), "
+                "get_result_dict and report. Every read is judged by a twin: class A (functions of configuration and current parameters) against a NEW fit "
+                "that receives the configuration mutators only, is set to the same parameter values and is asked for that observable first (rtol 1e-9); "
+                "class B (minimizer-derived) against a NEW fit that receives all mutators incl. do_fit and no reads (minimizer tolerance tier), while they are "
+                "the results of the last fit. non-trivial = >=3 mutators, >=2 reads after mutators, >=2 distinct cache-state vectors.",
+        "states_measure": "distinct vectors of (stale, frozen) over all graph nodes + container total-cache flags + model stale flag + did_fit + loaded-result flag",
+        "assumptions": ["PD well-conditioned totals; reads of uncertainty-dependent observables are skipped while the configuration is outside that domain",
+                        "a do_fit that raises or leaves the domain ends the run as discarded", "unlimit only for limited parameters, release only for fixed ones",
+                        "data replacement only in histories without model-referenced sources", "object-valued properties (data_container, model_function, ...) are listed as not compared",
+                        "asymmetric errors are read only with the iminuit backend in this machine (M-QUERY covers scipy)"],
+    },
     "C10": {
         "rule": "fresh-replay scripts as in C01 with the counting events emphasised (fix, release, fix again, fix(name, value), simple and n-parameter "
                 "matrix constraints, do_fit before the observation in a third of the runs); observed first on a fresh fit: ndf (integer ==), "
